@@ -170,7 +170,7 @@ def gen_trace(seed, world, tier, mode=None, chunk=None):
     tol = 10.0 ** -R.choice([2, 4, 6, 8, 10, 12])
     storage = R.choice(["dense", "dense", "sparse"])
     if mode in ("caps", "caps_big"):
-        sysd = gen_system(R, nmax if mode == "caps_big" else min(nmax, 6))
+        sysd = gen_system(R, 10 if mode == "caps_big" else min(nmax, 6))
         n = sysd["n"]
         jitter = R.random() < 0.5
         precs = R.choice([("none",), ("none", "left_lu"), ("none", "left_lu"), ("left_lu",)])
@@ -373,7 +373,17 @@ class Hooks(BaseHooks):
         # the documented fallback is the unpreconditioned solve)
         live_ok = (not ("line" in fault)) and fault.get("utri_zero") is None and cap is None \
             and meta["cond"] <= 1e3 and tol >= 1e-10
-        if live_ok and not bzero:
+        # Unpreconditioned solves stop on the TRUE relative residual, so after at most n cycles it
+        # is below tol itself (plus the rounding of the residual evaluation) - also for the
+        # tightest tolerances: 4365 unchanged-tree solves at tol = 1e-12, cond <= 1e3, n <= 10,
+        # scales 1e-6..1e6 all converged with residual <= 8.3e-13.
+        if (not ("line" in fault)) and fault.get("utri_zero") is None and not fault.get("lu_fail") \
+                and cap is None and prec == "none" and meta["cond"] <= 1e3 and not bzero:
+            if not (true <= tol * (1 + 1e-6) + 10 * 2.3e-16 * meta["cond"]):
+                viol.append(V("liveness", i,
+                              f"default cap, no preconditioner, cond {meta['cond']:.3g}, tol {tol:g}: true residual "
+                              f"{true:.3e} after {its} cycles (n = {n}) is not below tol"))
+        elif live_ok and not bzero:
             if not (true <= 10.0 * kappa * tol):
                 viol.append(V("liveness", i,
                               f"default cap, cond {meta['cond']:.3g}, tol {tol:g}: true residual "
